@@ -24,6 +24,53 @@ theorem C04_no_redial : ∀ r ∈ Gen.c04DialPaths, secureArgClass r.1 = "false"
 theorem redials_http : redials "http" = false := by decide
 theorem redials_socket : redials "socket" = false := by decide
 
+/-- **the server's `secure` flag comes from its own listener** (regenerated from every call of AcceptConnection /
+    NewServerConnection under internal/, `Gen.c04ServerSecureArgs`, and from every write of a `secure` field in those
+    packages, `Gen.c04ServerSecureWrites`): each of the server kinds socket, http, packet, stdio and AcceptConnection
+    itself has a call site; at every call site the `secure` argument is the literal `false`, or the receiver's `secure`
+    field / a local of `Startup`, or AcceptConnection's own parameter handed on untouched; every write of such a field is
+    `<receiver>.secure = true` directly under a test of the endpoint's OWN configured scheme, or `= false`, inside a
+    `Startup` method.  No term derived from the request (a header, `r.TLS`, `r.URL`, a subprotocol), from the peer's
+    handshake messages or from a password reaches the argument.  Consequence (last clause): a server kind whose own
+    listener is not TLS never tells the handshake that the carrier is secure. -/
+theorem C04_server_secure_flag_from_own_listener :
+    (∀ k ∈ serverKinds, ∃ r ∈ Gen.c04ServerSecureArgs, r.1 = k) ∧
+    (∀ r ∈ Gen.c04ServerSecureArgs,
+      r.2.2.2.2 = "false" ∨ r.2.2.2.2 = "ownSchemeField" ∨ r.2.2.2.2 = "ownSchemeVar" ∨
+        (r.2.2.2.2 = "paramPassThrough" ∧ r.1 = "accept")) ∧
+    (∀ w ∈ Gen.c04ServerSecureWrites, w.2.2.2 = "ok") ∧
+    (∀ r ∈ Gen.c04ServerSecureArgs, srvFlag r.1 false = false) := by
+  decide
+
+/-- in the form the model uses -/
+theorem srvFlag_http_plain : srvFlag "http" false = false := by decide
+
+/-- **a rewritten opening request changes nothing**: for every spelling of the regenerated upstream switch behind a
+    front-end that relays to the real plain server and rewrites the client's opening HTTP request (any header, the
+    request URL, subprotocol names - the model does not even look at what was rewritten, because by
+    `C04_server_secure_flag_from_own_listener` nothing the request says reaches the `secure` argument), server with /
+    without certificate, require-security, every client certificate configuration: the five clauses hold, and the
+    server's own view is right - it advertises StartTLS exactly when it owns a certificate (its carrier is plain). -/
+theorem C04_inject_grid_never_plaintext :
+    ∀ k ∈ Schemes.keysOf (Schemes.tableOf .upstream), ∀ (stls scert must insecure ca : Bool),
+      cellSafe2 (spellTls k.toList) false scert must (cellFront k.toList .inject stls scert must insecure ca) = true ∧
+      (srvAdvert k.toList scert = none ∨ srvAdvert k.toList scert = some scert) := by
+  decide +kernel
+
+/-- **why the fact matters (kernel-checked counter-example)**: a websocket server that takes the word of the request
+    for "the carrier is encrypted" (flag true on its plain listener) does not advertise StartTLS although it owns a
+    certificate, and the honest client completes a plaintext session, payload in clear - clause (2) fails; the relay
+    reads `srv=nostls`.  This is the cell the harness reproduces on such code (`ws inj:xfp 0 1 0 …`). -/
+theorem C04_inject_claimed_secure_witness :
+    cellFrontWith2 redials (fun _ _ => true) "ws".toList .inject false true false true false
+      = .est .none false true true (some false) ∧
+    cellSafe2 false false true false
+      (cellFrontWith2 redials (fun _ _ => true) "ws".toList .inject false true false true false) = false ∧
+    srvAdvertWith (fun _ _ => true) "ws".toList true = some false ∧
+    srvFlagOf [("http", "http_server.go", "HttpServer.EndpointHandler", "ws.secure || r.Header.Get(\"X-Forwarded-Proto\") == \"https\"", "other")]
+      "http" false = true := by
+  decide +kernel
+
 /-- **the front-end sweep is safe**: for every spelling of the regenerated upstream switch, every answer of the
     front-end (relay, 3xx to a plain or to a TLS location, redirect loop, 200 / 404, TLS refused), server plain / TLS,
     with / without certificate, require-security and every client certificate configuration, the five clauses of the
@@ -36,7 +83,10 @@ theorem C04_front_grid_never_plaintext :
     ∀ k ∈ Schemes.keysOf (Schemes.tableOf .upstream), ∀ (f : Front) (stls scert must insecure ca : Bool),
       cellSafe2 (spellTls k.toList) (finalStls f stls) scert must (cellFront k.toList f stls scert must insecure ca) = true := by
   intro k hk f stls scert must insecure ca
-  unfold cellFront cellFrontWith
+  by_cases hinj : f = .inject
+  · subst hinj
+    exact (C04_inject_grid_never_plaintext k hk stls scert must insecure ca).1
+  unfold cellFront cellFrontWith cellFrontWith2
   split
   · rfl
   · rename_i ctor _
@@ -70,6 +120,8 @@ theorem C04_front_grid_never_plaintext :
                · rfl)
       | loop => rfl
       | status => rfl
+      | inject => exact absurd rfl hinj
+      | srvpw => rfl
       | redirect t =>
         simp only [finalStls]
         split
@@ -107,12 +159,20 @@ example : cellFront "ws".toList .tlsdrop false true true false true = .est .tls 
 example : cellFront "https".toList .pass true true true false true = .est .underlying true true false (some true) := by decide +kernel
 example : cellFront "udp".toList .pass false false false true false = .noserver := by decide +kernel
 example : redialsOf [("http", 3, false)] "http" = true := by decide
+example : cellFront "ws".toList .inject false true false true false = .est .tls true true false (some false) := by decide +kernel
+example : cellFront "http".toList .inject false true true false false = .refused := by decide +kernel
+example : srvAdvert "ws".toList true = some true ∧ srvAdvert "ws".toList false = some false := by decide +kernel
+example : cellFront "wss".toList .inject false true true false true = .noserver := by decide +kernel
+example : srvFlagOf [] "http" false = true := by decide
 example : redialsOf [("http", 1, true)] "http" = true := by decide
 
 end SA.Security
 
 #print axioms SA.Security.C04_flag_computed_for_the_carrier_in_use
 #print axioms SA.Security.C04_no_redial
+#print axioms SA.Security.C04_server_secure_flag_from_own_listener
+#print axioms SA.Security.C04_inject_grid_never_plaintext
+#print axioms SA.Security.C04_inject_claimed_secure_witness
 #print axioms SA.Security.C04_front_grid_never_plaintext
 #print axioms SA.Security.C04_front_redial_witness
 #print axioms SA.Security.C04_front_fallback_witness
